@@ -1,6 +1,8 @@
 import FormulaeModel.Proofs.Blocks
 import FormulaeModel.Proofs.Indicator
 import FormulaeModel.Spec.C05
+import FormulaeModel.Proofs.GroupBlockSpec
+import FormulaeModel.Proofs.GroupBlockWidth
 /-
 C05 — block structure of group-specific terms in the evaluation model.
 -/
@@ -66,5 +68,562 @@ theorem C05_cell_order (G1 G2 a b a' b' : Nat) (ha' : a' < G1) (hb' : b' < G2) :
 -- non-vacuity: 3 groups, 2 effect columns, an observation of the middle group
 example : rowProd (indicatorRow 3 1) [some 1, some (7 / 2)] =
     [some 0, some 0, some 1, some (7 / 2), some 0, some 0] := by decide +kernel
+
+/-! ## Term level: the evaluation model's own `trainGroup`
+
+The theorems above are about the building blocks.  The theorems below are about the function the
+correspondence check runs, `trainGroup` (Model/Matrices.lean): the grouping factor trained as a
+term with every component coded full, the effect expression trained as a term (or a column of ones
+for the intercept), and `khatriRao` of the two.  All frames, environments, tables and
+specifications; no bound on the number of rows, levels, grouping components or effect columns.
+
+Coding hypothesis.  `trainGroup` codes the factor with the *component's own* contrast, full.  For a
+plain variable and for `C(g)` / `C(g, Treatment(…))` that is the complete indicator coding; for
+`C(g, Sum)` it is `[1 | sum contrasts]`, and the block is *not* an indicator block (model and
+library agree on that: `C05_factor_sum_counterexample`).  The theorems therefore carry the
+hypothesis `IndicatorCoded` on the trained state — which is decidable on the result — and
+`C05_plain_factor_indicatorCoded` / `C05_treatment_factor_indicatorCoded` discharge it for plain
+variables / every factor that asks for Treatment coding. -/
+
+/-- every grouping component remembered the complete indicator coding (Treatment, full) -/
+def IndicatorCoded (st : GroupState) : Prop :=
+  ∀ c ∈ st.factor.comps, c.contrast = some (treatmentFull c.levels)
+
+instance (st : GroupState) : Decidable (IndicatorCoded st) := by
+  unfold IndicatorCoded; infer_instance
+
+/-- number of cells of the grouping factor: the product of the numbers of levels -/
+def cells (st : GroupState) : Nat := cellCount 1 (st.factor.comps.map (·.levels.length))
+
+theorem unitE_eq_indicatorRow (G g : Nat) : unitE G g = indicatorRow G g := rfl
+
+theorem entry_one_mul (e : Entry) : Entry.mul (some 1) e = e := by
+  cases e <;> simp [Entry.mul]
+
+theorem entry_zero_mul (e : Entry) : Entry.mul (some 0) e = e.map (fun _ => 0) := by
+  cases e <;> simp [Entry.mul]
+
+/-- grouping by plain variables: the complete indicator coding is what `trainGroup` uses -/
+theorem C05_plain_factor_indicatorCoded (env : Env) (table : List (String × Expr)) (spec : GroupSpec)
+    (out : GroupOut) (h : trainGroup env table spec = .ok out)
+    (hp : PlainFactor table (spec.factor.comps.map (·.1))) : IndicatorCoded out.st :=
+  (trainGroup_factor_state env table spec out h).2 hp.treatment
+
+/-- … and so does every factor whose components ask for Treatment coding (`C(g)`, `C(g, Treatment)`) -/
+theorem C05_treatment_factor_indicatorCoded (env : Env) (table : List (String × Expr)) (spec : GroupSpec)
+    (out : GroupOut) (h : trainGroup env table spec = .ok out)
+    (hT : TreatmentFactor env table (spec.factor.comps.map (·.1))) : IndicatorCoded out.st :=
+  (trainGroup_factor_state env table spec out h).2 hT
+
+/-- **(1) the factor matrix is the complete indicator matrix** (any number of grouping
+components).  `cols` are the values the components read (`factorColumns`); for row `r`,
+`rowCell … r = some ps` lists for every component (number of levels, position of the row's level
+among the component's levels — `indexOf?`); the row of the factor matrix is the indicator row of
+the cell, cells numbered in lexicographic order, first component slowest (`cellIndex`). -/
+theorem C05_factor_indicator (env : Env) (table : List (String × Expr)) (spec : GroupSpec) (f : TermOut)
+    (h : trainTerm env table (factorSpecOf spec) true false = .ok f)
+    (ht : ∀ c ∈ f.st.comps, c.contrast = some (treatmentFull c.levels)) :
+    ∃ cols, factorColumns env table (spec.factor.comps.map (·.1)) = .ok cols ∧
+      ∀ r (hr : r < f.data.length), ∃ ps,
+        rowCell (f.st.comps.map (·.levels)) (cols.map (·.2)) r = some ps ∧
+        (∀ p ∈ ps, p.2 < p.1) ∧ ps.map (·.1) = f.st.comps.map (·.levels.length) ∧
+        f.data[r] = indicatorRow (cellCount 1 (ps.map (·.1))) (cellIndex 0 ps) := by
+  obtain ⟨outs, cols, hcols, hF, _, hcomps, hfd, _⟩ := trainTerm_factor_parts env table spec f h
+  have ht' : ∀ o ∈ outs, o.st.contrast = some (treatmentFull o.st.levels) := by
+    intro o ho
+    exact ht o.st (by rw [hcomps]; exact List.mem_map.2 ⟨o, ho, rfl⟩)
+  refine ⟨cols, hcols, ?_⟩
+  intro r hr
+  have hr' : r < (reduceMatrices (outs.map (·.value))).length := by rw [← hfd]; exact hr
+  obtain ⟨ps, h1, h2, h3, _, h5⟩ := reduceMatrices_factor_row outs cols hF ht' r hr'
+  refine ⟨ps, ?_, h2, ?_, ?_⟩
+  · rw [hcomps, List.map_map]; exact h1
+  · rw [hcomps, List.map_map]; exact h3
+  · simp only [hfd]; exact h5
+
+/-- **(1′) the levels**: every grouping component remembers the declared order (ordered
+Categorical, explicit `levels=`) or else the sorted distinct values it read: no duplicates, exactly
+the values present, non-decreasing for Python's `<`. -/
+theorem C05_factor_levels (env : Env) (table : List (String × Expr)) (spec : GroupSpec) (out : GroupOut)
+    (h : trainGroup env table spec = .ok out) (ht : IndicatorCoded out.st) :
+    ∃ cols, factorColumns env table (spec.factor.comps.map (·.1)) = .ok cols ∧
+      out.st.factor.comps.map (·.name) = spec.factor.comps.map (·.1) ∧
+      out.st.factor.comps.length = cols.length ∧
+      ∀ (i : Nat) (c : CompState) (col : Val × List (Option Level)),
+        out.st.factor.comps[i]? = some c → cols[i]? = some col →
+        match valDeclared col.1 with
+        | some ls => c.levels = ls
+        | none => c.levels.Nodup ∧ (∀ l, l ∈ c.levels ↔ some l ∈ col.2) ∧ SortedBy levelLt c.levels := by
+  obtain ⟨cols, X, hcols, _, hnames, hlen, hord, _⟩ := trainGroup_block env table spec out h ht
+  refine ⟨cols, hcols, hnames, hlen, ?_⟩
+  intro i c col hc hcol
+  have := hord i c col hc hcol
+  unfold LevelOrder at this
+  split
+  · rename_i ls hd
+    rw [hd] at this
+    exact this
+  · rename_i hd
+    rw [hd] at this
+    obtain ⟨h1, h2, h3⟩ := sortLevels_spec _ _ this
+    refine ⟨h1, ?_, h3⟩
+    intro l
+    rw [h2 l]
+    simp [List.mem_filterMap]
+
+/-- **(2) block structure of `trainGroup`**: every row of the block is the Kronecker row of the
+indicator row of the row's cell with the row of the effect matrix (`effectData`: a column of ones
+for the intercept, the data of the trained effect term otherwise). -/
+theorem C05_trainGroup_block (env : Env) (table : List (String × Expr)) (spec : GroupSpec) (out : GroupOut)
+    (h : trainGroup env table spec = .ok out) (ht : IndicatorCoded out.st) :
+    ∃ cols X, factorColumns env table (spec.factor.comps.map (·.1)) = .ok cols ∧
+      effectData env table spec = .ok X ∧
+      ∀ r (hr : r < out.data.length), ∃ ps x,
+        rowCell (out.st.factor.comps.map (·.levels)) (cols.map (·.2)) r = some ps ∧
+        cellIndex 0 ps < cells out.st ∧ X[r]? = some x ∧
+        out.data[r] = rowProd (indicatorRow (cells out.st) (cellIndex 0 ps)) x := by
+  obtain ⟨cols, X, hcols, hX, _, _, _, hrows⟩ := trainGroup_block env table spec out h ht
+  refine ⟨cols, X, hcols, hX, ?_⟩
+  intro r hr
+  obtain ⟨ps, x, h1, _, h3, h4, h5, h6⟩ := hrows r hr
+  rw [h3] at h4 h6
+  exact ⟨ps, x, h1, h4, h5, h6⟩
+
+/-- **(2′) entry by entry**: in the row of an observation of cell `g`, slot `g' < G` holds at
+offset `k` the product `[g' = g] · x[k]` (`Entry.mul`): the effect value itself in the row's own
+slot; in every other slot `0` where the effect value is a number and NaN (`none`) where the effect
+value is NaN (`0 · NaN`, as numpy computes it). -/
+theorem C05_trainGroup_entries (env : Env) (table : List (String × Expr)) (spec : GroupSpec) (out : GroupOut)
+    (h : trainGroup env table spec = .ok out) (ht : IndicatorCoded out.st) :
+    ∃ cols X, factorColumns env table (spec.factor.comps.map (·.1)) = .ok cols ∧
+      effectData env table spec = .ok X ∧
+      ∀ r (hr : r < out.data.length), ∃ ps x,
+        rowCell (out.st.factor.comps.map (·.levels)) (cols.map (·.2)) r = some ps ∧
+        cellIndex 0 ps < cells out.st ∧ X[r]? = some x ∧
+        out.data[r].length = cells out.st * x.length ∧
+        ∀ g' k (_ : g' < cells out.st) (hk : k < x.length),
+          out.data[r][g' * x.length + k]? =
+            some (if g' = cellIndex 0 ps then x[k] else x[k].map (fun _ => 0)) := by
+  obtain ⟨cols, X, hcols, hX, hrows⟩ := C05_trainGroup_block env table spec out h ht
+  refine ⟨cols, X, hcols, hX, ?_⟩
+  intro r hr
+  obtain ⟨ps, x, h1, h2, h3, h4⟩ := hrows r hr
+  refine ⟨ps, x, h1, h2, h3, by rw [h4, C05_block_width], ?_⟩
+  intro g' k hg' hk
+  rw [h4, C05_block_row _ _ x g' k hg' hk]
+  by_cases hg : g' = cellIndex 0 ps
+  · simp [hg, entry_one_mul]
+  · simp [hg, entry_zero_mul]
+
+/-- the intercept effect: the effect row is `[1]`, so the block *is* the indicator matrix -/
+theorem C05_trainGroup_intercept (env : Env) (table : List (String × Expr)) (spec : GroupSpec)
+    (out : GroupOut) (h : trainGroup env table spec = .ok out) (ht : IndicatorCoded out.st)
+    (hi : spec.expr = none) :
+    ∃ cols, factorColumns env table (spec.factor.comps.map (·.1)) = .ok cols ∧
+      ∀ r (hr : r < out.data.length), ∃ ps,
+        rowCell (out.st.factor.comps.map (·.levels)) (cols.map (·.2)) r = some ps ∧
+        cellIndex 0 ps < cells out.st ∧
+        out.data[r] = rowProd (indicatorRow (cells out.st) (cellIndex 0 ps)) [some 1] := by
+  obtain ⟨cols, X, hcols, hX, hrows⟩ := C05_trainGroup_block env table spec out h ht
+  refine ⟨cols, hcols, ?_⟩
+  intro r hr
+  obtain ⟨ps, x, h1, h2, h3, h4⟩ := hrows r hr
+  simp only [effectData, hi, pure_ok] at hX
+  subst hX
+  have : x = [some 1] := by
+    have hx := List.mem_of_getElem? h3
+    exact List.eq_of_mem_replicate hx
+  subst this
+  exact ⟨ps, h1, h2, h4⟩
+
+/-- **(3) labels and group names**: the group names are the `:`-joined level labels in cell
+order; the column labels are, cell-major, `effectLabel|factorLabel` where the factor label of a
+cell is the `:`-join of `name[level]`; there are `G · (number of effect labels)` of them. -/
+theorem C05_trainGroup_labels (env : Env) (table : List (String × Expr)) (spec : GroupSpec) (out : GroupOut)
+    (h : trainGroup env table spec = .ok out) (ht : IndicatorCoded out.st) :
+    ∃ el, effectLabels env table spec = .ok el ∧
+      out.st.groups = reduceLabels (out.st.factor.comps.map (fun c => c.levels.map Level.label)) ∧
+      (out.st.factor.comps ≠ [] → out.st.groups.length = cells out.st) ∧
+      ∀ ls, out.labels = some ls → ∃ els, el = some els ∧
+        ls = (reduceLabels (out.st.factor.comps.map (fun c =>
+                c.levels.map (fun l => c.name ++ "[" ++ l.label ++ "]")))).flatMap
+              (fun g => els.map (fun l => l ++ "|" ++ g)) ∧
+        (out.st.factor.comps ≠ [] → ls.length = cells out.st * els.length) := by
+  obtain ⟨el, hel, hgroups, hlabels⟩ := trainGroup_labels env table spec out h ht
+  have hcount : ∀ (lab : CompState → Level → String), out.st.factor.comps ≠ [] →
+      (reduceLabels (out.st.factor.comps.map (fun c => c.levels.map (lab c)))).length = cells out.st := by
+    intro lab hne
+    unfold cells
+    cases hcs : out.st.factor.comps with
+    | nil => exact absurd hcs hne
+    | cons c cs =>
+      simp only [List.map_cons, reduceLabels, cellCount_one_cons]
+      have hlen : ∀ (lps : List (List String × Nat)) (acc : List String),
+          ((lps.map (·.1)).foldl interactionLabels acc).length = cellCount acc.length (lps.map (·.1.length)) := by
+        intro lps
+        induction lps with
+        | nil => intro acc; rfl
+        | cons p lps ih =>
+          intro acc
+          simp only [List.map_cons, List.foldl_cons, cellCount]
+          rw [ih, interactionLabels_eq, length_labelProd]
+          rfl
+      have := hlen (cs.map (fun c => (c.levels.map (lab c), 0))) (c.levels.map (lab c))
+      simpa [List.map_map, Function.comp_def] using this
+  refine ⟨el, hel, hgroups, ?_, ?_⟩
+  · intro hne
+    rw [hgroups]
+    exact hcount (fun _ l => l.label) hne
+  · intro ls hls
+    rw [hlabels] at hls
+    cases el with
+    | none => simp at hls
+    | some els =>
+      simp only [Option.map_some, Option.some.injEq] at hls
+      subst hls
+      refine ⟨els, rfl, rfl, ?_⟩
+      intro hne
+      have := length_labelProd bar (reduceLabels (out.st.factor.comps.map (fun c =>
+        c.levels.map (fun l => c.name ++ "[" ++ l.label ++ "]")))) els
+      rw [this, hcount (fun c l => c.name ++ "[" ++ l.label ++ "]") hne]
+
+/-- **(3′) as many labels as columns** (no coding hypothesis, every effect, every factor): when
+the labels of the block exist, every row of the block has exactly one entry per label — with (3):
+`G · p` entries, `p` the number of effect labels. -/
+theorem C05_trainGroup_width (env : Env) (table : List (String × Expr)) (spec : GroupSpec) (out : GroupOut)
+    (h : trainGroup env table spec = .ok out) (ls : List String) (hls : out.labels = some ls) :
+    ∀ row ∈ out.data, row.length = ls.length :=
+  trainGroup_width env table spec out h ls hls
+
+/-- for well-formed frames (every column has `nrows` cells) the block has one row per row of the
+frame, so (2) speaks about every observation -/
+theorem C05_trainGroup_nrows (env : Env) (hwf : env.frame.wellFormed = true) (hn : env.namesScalar = true)
+    (table : List (String × Expr)) (spec : GroupSpec) (out : GroupOut)
+    (hnf : spec.factor.comps ≠ []) (hne : ∀ ts, spec.expr = some ts → ts.comps ≠ [])
+    (h : trainGroup env table spec = .ok out) : out.data.length = env.frame.nrows :=
+  (trainGroup_perm env hwf hn (List.range env.frame.nrows) (List.Perm.refl _) table spec out hnf hne h).2
+
+/-- **single grouping variable** `(e | g)`, `g` a plain column: no coding hypothesis is needed.
+The values and levels are the ones the specification (Spec/C05) prescribes: `componentValues`
+(the column, row by row) and `componentLevels` (declared order of an ordered Categorical, else the
+sorted distinct values); the group names are the level labels; row `r` of an observation whose
+value is level number `g` carries the effect row in slot `g` and `0 · x` elsewhere. -/
+theorem C05_trainGroup_single (env : Env) (table : List (String × Expr)) (spec : GroupSpec) (out : GroupOut)
+    (name : String) (flag : Bool) (x : Token)
+    (hf : spec.factor.comps = [(name, flag)]) (hx : compExpr table name = .ok (.variable x))
+    (h : trainGroup env table spec = .ok out) :
+    ∃ xs levels X, Spec.C05.componentValues env table name = .ok xs ∧
+      Spec.C05.componentLevels env table name = .ok levels ∧
+      effectData env table spec = .ok X ∧
+      out.st.groups = levels.map Level.label ∧
+      ∀ r (hr : r < out.data.length), ∃ l g xr,
+        xs[r]? = some (some l) ∧ indexOf? l levels = some g ∧ g < levels.length ∧ X[r]? = some xr ∧
+        out.data[r] = rowProd (indicatorRow levels.length g) xr ∧
+        ∀ g' k (_ : g' < levels.length) (hk : k < xr.length),
+          out.data[r][g' * xr.length + k]? =
+            some (if g' = g then xr[k] else xr[k].map (fun _ => 0)) := by
+  have hplain : PlainFactor table (spec.factor.comps.map (·.1)) := by
+    intro nm hnm e he
+    simp only [hf, List.map_cons, List.map_nil, List.mem_singleton] at hnm
+    subst hnm
+    rw [hx] at he
+    simp only [Except.ok.injEq] at he
+    subst he
+    rfl
+  have ht := C05_plain_factor_indicatorCoded env table spec out h hplain
+  obtain ⟨cols, X, hcols, hX, hnames, hlen, hord, hrows⟩ := trainGroup_block env table spec out h ht
+  obtain ⟨_, _, hgroups, _⟩ := trainGroup_labels env table spec out h ht
+  -- the one column
+  simp only [hf, List.map_cons, List.map_nil, factorColumns, List.mapM_cons, List.mapM_nil, bind_ok,
+    pure_ok] at hcols
+  obtain ⟨col, ⟨e, he, v, hv, xs, hxs, rfl⟩, _, rfl, rfl⟩ := hcols
+  rw [hx] at he
+  simp only [Except.ok.injEq] at he
+  subst he
+  -- the one component
+  simp only [List.length_cons, List.length_nil] at hlen
+  obtain ⟨c, hc⟩ : ∃ c, out.st.factor.comps = [c] := by
+    cases hcs : out.st.factor.comps with
+    | nil => rw [hcs] at hlen; simp at hlen
+    | cons c cs =>
+      cases cs with
+      | nil => exact ⟨c, rfl⟩
+      | cons c' cs' => rw [hcs] at hlen; simp at hlen
+  have hord0 := hord 0 c (v, xs) (by rw [hc]; rfl) rfl
+  refine ⟨xs, c.levels, X, componentValues_eq env table name _ hx rfl v xs hv hxs,
+    componentLevels_eq env table name x hx v xs c.levels hv hxs hord0, hX, ?_, ?_⟩
+  · rw [hgroups, hc]; rfl
+  · intro r hr
+    obtain ⟨ps, xr, h1, h2, h3, h4, h5, h6⟩ := hrows r hr
+    simp only [hc, List.map_cons, List.map_nil, rowCell, List.zip_cons_cons, List.zip_nil_right,
+      List.mapM_cons, List.mapM_nil] at h1 h3
+    cases hli : levelIndex c.levels (xs.getD r none) with
+    | none => rw [hli] at h1; simp at h1
+    | some g =>
+      rw [hli] at h1
+      simp only [Option.map_some, Option.pure_def, Option.bind_eq_bind, Option.bind_some,
+        Option.some.injEq] at h1
+      subst h1
+      have hg : g < c.levels.length := levelIndex_lt _ _ _ hli
+      cases hxr : xs.getD r none with
+      | none => rw [hxr] at hli; simp [levelIndex] at hli
+      | some l =>
+        rw [hxr] at hli
+        simp only [levelIndex, Option.bind_some] at hli
+        have hxr' : xs[r]? = some (some l) := by
+          simp only [List.getD_eq_getElem?_getD] at hxr
+          cases hq : xs[r]? with
+          | none => rw [hq] at hxr; simp at hxr
+          | some q => rw [hq] at hxr; simp only [Option.getD_some] at hxr; rw [hxr]
+        have hrow : out.data[r] = rowProd (indicatorRow c.levels.length g) xr := by
+          rw [h6]
+          simp [cellCount, cellIndex, unitE_eq_indicatorRow]
+        refine ⟨l, g, xr, hxr', hli, hg, h5, hrow, ?_⟩
+        intro g' k hg' hk
+        rw [hrow, C05_block_row _ _ xr g' k hg' hk]
+        by_cases hgg : g' = g
+        · simp [hgg, entry_one_mul]
+        · simp [hgg, entry_zero_mul]
+
+/-- the anatomy of the state for a single plain grouping variable: one component, named and
+read as the variable, with the levels the specification prescribes, indicator coded -/
+theorem C05_single_component (env : Env) (table : List (String × Expr)) (spec : GroupSpec) (out : GroupOut)
+    (name : String) (flag : Bool) (x : Token)
+    (hf : spec.factor.comps = [(name, flag)]) (hx : compExpr table name = .ok (.variable x))
+    (h : trainGroup env table spec = .ok out) :
+    ∃ c, out.st.factor.comps = [c] ∧ c.name = name ∧ c.expr = .variable x ∧
+      Spec.C05.componentLevels env table name = .ok c.levels ∧ IndicatorCoded out.st ∧
+      cells out.st = c.levels.length := by
+  have hplain : PlainFactor table (spec.factor.comps.map (·.1)) := by
+    intro nm hnm e he
+    simp only [hf, List.map_cons, List.map_nil, List.mem_singleton] at hnm
+    subst hnm
+    rw [hx] at he
+    simp only [Except.ok.injEq] at he
+    subst he
+    rfl
+  have ht := C05_plain_factor_indicatorCoded env table spec out h hplain
+  obtain ⟨cols, X, hcols, hX, hnames, hlen, hord, hrows⟩ := trainGroup_block env table spec out h ht
+  simp only [hf, List.map_cons, List.map_nil, factorColumns, List.mapM_cons, List.mapM_nil, bind_ok,
+    pure_ok] at hcols
+  obtain ⟨col, ⟨e, he, v, hv, xs, hxs, rfl⟩, _, rfl, rfl⟩ := hcols
+  rw [hx] at he
+  simp only [Except.ok.injEq] at he
+  subst he
+  simp only [List.length_cons, List.length_nil] at hlen
+  obtain ⟨c, hc⟩ : ∃ c, out.st.factor.comps = [c] := by
+    cases hcs : out.st.factor.comps with
+    | nil => rw [hcs] at hlen; simp at hlen
+    | cons c cs =>
+      cases cs with
+      | nil => exact ⟨c, rfl⟩
+      | cons c' cs' => rw [hcs] at hlen; simp at hlen
+  have hord0 := hord 0 c (v, xs) (by rw [hc]; rfl) rfl
+  have hname : c.name = name := by
+    rw [hc, hf] at hnames
+    simpa using hnames
+  have hexpr := trainGroup_factor_exprs env table spec out h c (by rw [hc]; simp)
+  rw [hname, hx] at hexpr
+  simp only [Except.ok.injEq] at hexpr
+  refine ⟨c, hc, hname, hexpr.symm, componentLevels_eq env table name x hx v xs c.levels hv hxs hord0, ht, ?_⟩
+  simp [cells, hc, cellCount]
+
+/-- name of the cell `ps` (one (number of levels, position) per component): the `:`-join of the
+labels of its levels -/
+def cellName (comps : List CompState) (ps : List (Nat × Nat)) : Option String :=
+  match comps, ps with
+  | c :: cs, p :: ps' =>
+    some ((List.zip cs ps').foldl (fun s q => s ++ ":" ++ (q.1.levels.map Level.label).getD q.2.2 "")
+      ((c.levels.map Level.label).getD p.2 ""))
+  | _, _ => none
+
+theorem zip_label_positions (cs : List CompState) (ps : List (Nat × Nat))
+    (h : ps.map (·.1) = cs.map (·.levels.length)) (hlt : ∀ p ∈ ps, p.2 < p.1) :
+    ((List.zip cs ps).map (fun q => (q.1.levels.map Level.label, q.2.2))).map (·.1) =
+        cs.map (fun c => c.levels.map Level.label) ∧
+      ((List.zip cs ps).map (fun q => (q.1.levels.map Level.label, q.2.2))).map
+        (fun p => (p.1.length, p.2)) = ps ∧
+      ∀ q ∈ (List.zip cs ps).map (fun q => (q.1.levels.map Level.label, q.2.2)), q.2 < q.1.length := by
+  induction cs generalizing ps with
+  | nil =>
+    cases ps with
+    | nil => simp
+    | cons p ps => simp at h
+  | cons c cs ih =>
+    cases ps with
+    | nil => simp at h
+    | cons p ps =>
+      simp only [List.map_cons, List.cons.injEq] at h
+      obtain ⟨h1, h2, h3⟩ := ih ps h.2 (fun q hq => hlt q (by simp [hq]))
+      have hp := hlt p (by simp)
+      refine ⟨?_, ?_, ?_⟩
+      · simp only [List.zip_cons_cons, List.map_cons, h1]
+      · simp only [List.zip_cons_cons, List.map_cons, h2, List.length_map]
+        rw [← h.1]
+      · intro q hq
+        simp only [List.zip_cons_cons, List.map_cons, List.mem_cons] at hq
+        rcases hq with rfl | hq
+        · simp only [List.length_map]; rw [← h.1]; exact hp
+        · exact h3 q hq
+
+/-- **cells in lexicographic order, by name**: the group name at the slot index of a cell is the
+`:`-join of the labels of the cell's levels (component 1 slowest). -/
+theorem C05_group_name_at_cell (env : Env) (table : List (String × Expr)) (spec : GroupSpec) (out : GroupOut)
+    (h : trainGroup env table spec = .ok out) (ht : IndicatorCoded out.st)
+    (ps : List (Nat × Nat)) (hne : out.st.factor.comps ≠ [])
+    (hps : ps.map (·.1) = out.st.factor.comps.map (·.levels.length)) (hlt : ∀ p ∈ ps, p.2 < p.1) :
+    out.st.groups[cellIndex 0 ps]? = cellName out.st.factor.comps ps := by
+  obtain ⟨_, _, hgroups, _⟩ := trainGroup_labels env table spec out h ht
+  rw [hgroups]
+  cases hcs : out.st.factor.comps with
+  | nil => exact absurd hcs hne
+  | cons c cs =>
+    rw [hcs] at hps
+    cases ps with
+    | nil => simp at hps
+    | cons p ps' =>
+      simp only [List.map_cons, List.cons.injEq] at hps
+      obtain ⟨h1, h2, h3⟩ := zip_label_positions cs ps' hps.2 (fun q hq => hlt q (by simp [hq]))
+      have hp := hlt p (by simp)
+      have hg : p.2 < (c.levels.map Level.label).length := by
+        simp only [List.length_map]; rw [← hps.1]; exact hp
+      have := (foldl_labelProd_getElem? _ (c.levels.map Level.label) p.2 hg h3).1
+      rw [h1, h2] at this
+      simp only [List.map_cons, reduceLabels, cellIndex_zero_cons, cellName]
+      rw [this, List.foldl_map]
+      simp [List.getD_eq_getElem?_getD, List.getElem?_eq_getElem hg]
+
+/-! ### non-vacuity and the `C(g, Sum)` counterexample -/
+
+def tk (k : Kind) (s : String) : Token := ⟨k, s⟩
+def var (s : String) : Expr := .variable (tk .IDENTIFIER s)
+def call2 (f : String) (a b : Expr) : Expr :=
+  .call (var f) (tk .LEFT_PAREN "(") (.more a (tk .COMMA ",") (.last b)) (tk .RIGHT_PAREN ")")
+
+/-- three observations: groups b, a, b; second factor u, u, v; a numeric effect -/
+def exFrame : Frame :=
+  [⟨"g", .string, [.str "b", .str "a", .str "b"]⟩,
+   ⟨"h", .string, [.str "u", .str "u", .str "v"]⟩,
+   ⟨"x", .numeric false, [.num 1, .num 2, .num (7 / 2)]⟩]
+def exEnv : Env := { frame := exFrame }
+def exTable : List (String × Expr) :=
+  [("g", var "g"), ("h", var "h"), ("x", var "x"), ("C(g, Sum)", call2 "C" (var "g") (var "Sum"))]
+/-- `(x | g)` -/
+def exSlope : GroupSpec :=
+  { name := "x|g", expr := some { name := "x", comps := [("x", false)] },
+    factor := { name := "g", comps := [("g", false)] } }
+/-- `(1 | g:h)` -/
+def exCells : GroupSpec :=
+  { name := "1|g:h", expr := none, factor := { name := "g:h", comps := [("g", false), ("h", false)] } }
+/-- `(1 | C(g, Sum))` -/
+def exSum : GroupSpec :=
+  { name := "1|C(g, Sum)", expr := none, factor := { name := "C(g, Sum)", comps := [("C(g, Sum)", true)] } }
+
+def dataOf (r : M GroupOut) : Option Matrix :=
+  match r with
+  | .ok o => some o.data
+  | .error _ => none
+
+def okEq {α : Type} [BEq α] (r : M α) (v : α) : Bool :=
+  match r with
+  | .ok a => a == v
+  | .error _ => false
+
+def holdsOf (r : M GroupOut) (p : GroupOut → Bool) : Bool :=
+  match r with
+  | .ok o => p o
+  | .error _ => false
+
+-- training succeeds, the coding hypothesis holds, and the blocks are what the theorems say:
+-- levels a < b; rows b, a, b carry x in slots 1, 0, 1
+example : dataOf (trainGroup exEnv exTable exSlope) =
+    some [[some 0, some 1], [some 2, some 0], [some 0, some (7 / 2)]] := by decide +kernel
+-- cells (a,u), (a,v), (b,u), (b,v); rows (b,u), (a,u), (b,v) are cells 2, 0, 3
+example : dataOf (trainGroup exEnv exTable exCells) =
+    some [[some 0, some 0, some 1, some 0], [some 1, some 0, some 0, some 0],
+          [some 0, some 0, some 0, some 1]] := by decide +kernel
+example : holdsOf (trainGroup exEnv exTable exSlope) (fun o => decide (IndicatorCoded o.st)) = true := by
+  decide +kernel
+example : holdsOf (trainGroup exEnv exTable exCells) (fun o =>
+    decide (IndicatorCoded o.st) && o.st.groups == ["a:u", "a:v", "b:u", "b:v"] &&
+    o.labels == some ["1|g[a]:h[u]", "1|g[a]:h[v]", "1|g[b]:h[u]", "1|g[b]:h[v]"] &&
+    cells o.st == 4) = true := by
+  decide +kernel
+example : rowCell [[.s "a", .s "b"], [.s "u", .s "v"]]
+    [[some (.s "b"), some (.s "a"), some (.s "b")], [some (.s "u"), some (.s "u"), some (.s "v")]] 2
+    = some [(2, 1), (2, 1)] ∧ cellIndex 0 [(2, 1), (2, 1)] = 3 := by decide +kernel
+example : holdsOf (trainGroup exEnv exTable exCells) (fun o =>
+    o.st.groups[cellIndex 0 [(2, 1), (2, 0)]]? == some "b:u" &&
+    cellName o.st.factor.comps [(2, 1), (2, 0)] == some "b:u") = true := by decide +kernel
+example : holdsOf (trainGroup exEnv exTable exSlope) (fun o =>
+    o.labels == some ["x|g[a]", "x|g[b]"] && o.data.all (fun r => r.length == 2)) = true := by
+  decide +kernel
+-- the grouping factor `g:h` as a term: indicator coded, rows = indicator rows of the cells 2, 0, 3
+example : (match trainTerm exEnv exTable (factorSpecOf exCells) true false with
+    | .ok f => decide (∀ c ∈ f.st.comps, c.contrast = some (treatmentFull c.levels)) &&
+        f.data == [indicatorRow 4 2, indicatorRow 4 0, indicatorRow 4 3]
+    | .error _ => false) = true := by decide +kernel
+-- the instances of the theorems
+example : ∀ out, trainGroup exEnv exTable exSlope = .ok out →
+    ∃ xs levels X, Spec.C05.componentValues exEnv exTable "g" = .ok xs ∧
+      Spec.C05.componentLevels exEnv exTable "g" = .ok levels ∧
+      effectData exEnv exTable exSlope = .ok X ∧ out.st.groups = levels.map Level.label ∧
+      ∀ r (hr : r < out.data.length), ∃ l g xr,
+        xs[r]? = some (some l) ∧ indexOf? l levels = some g ∧ g < levels.length ∧ X[r]? = some xr ∧
+        out.data[r] = rowProd (indicatorRow levels.length g) xr ∧
+        ∀ g' k (_ : g' < levels.length) (hk : k < xr.length),
+          out.data[r][g' * xr.length + k]? = some (if g' = g then xr[k] else xr[k].map (fun _ => 0)) :=
+  fun out h => C05_trainGroup_single exEnv exTable exSlope out "g" false (tk .IDENTIFIER "g") rfl rfl h
+example : okEq (Spec.C05.componentLevels exEnv exTable "g") [.s "a", .s "b"] = true ∧
+    okEq (Spec.C05.componentValues exEnv exTable "g") [some (.s "b"), some (.s "a"), some (.s "b")] = true ∧
+    okEq (effectData exEnv exTable exSlope) [[some 1], [some 2], [some (7 / 2)]] = true := by decide +kernel
+example : PlainFactor exTable (exCells.factor.comps.map (·.1)) := by
+  intro nm hnm e he
+  simp only [exCells, List.map_cons, List.map_nil, List.mem_cons, List.not_mem_nil, or_false] at hnm
+  rcases hnm with rfl | rfl <;> (cases he; rfl)
+example : exEnv.frame.wellFormed = true ∧ exEnv.namesScalar = true := by decide
+
+/-- The statement of (2) without the coding hypothesis. -/
+def C05_trainGroup_block_Statement : Prop :=
+  ∀ (env : Env) (table : List (String × Expr)) (spec : GroupSpec) (out : GroupOut),
+    trainGroup env table spec = .ok out →
+    ∃ X, effectData env table spec = .ok X ∧
+      ∀ r (hr : r < out.data.length), ∃ G g x, g < G ∧ X[r]? = some x ∧
+        out.data[r] = rowProd (indicatorRow G g) x
+
+/-- **`(1 | C(g, Sum))`**: the factor is coded with *its own* contrast, full: a column of ones and
+the sum contrasts (`groups = ["mean", "a"]`), so the rows of the block are not indicator rows.
+The model mirrors the library here (`design_matrices("y ~ 1 + (1|C(g, Sum))", …).group` has the
+columns `1|C(g, Sum)[mean]`, `…[a]`, …); C05 as stated ("the complete indicator matrix of g") does
+not hold for such a grouping factor. -/
+theorem C05_factor_sum_counterexample : ¬ C05_trainGroup_block_Statement := by
+  intro hS
+  have hd : dataOf (trainGroup exEnv exTable exSum) =
+      some [[some 1, some (-1)], [some 1, some 1], [some 1, some (-1)]] := by
+    decide +kernel
+  cases hout : trainGroup exEnv exTable exSum with
+  | error e => rw [hout] at hd; simp [dataOf] at hd
+  | ok out =>
+    rw [hout] at hd
+    simp only [dataOf, Option.some.injEq] at hd
+    obtain ⟨X, hX, hrows⟩ := hS exEnv exTable exSum out hout
+    simp only [effectData, exSum, pure_ok] at hX
+    subst hX
+    obtain ⟨G, g, x, hg, hx, hrow⟩ := hrows 0 (by rw [hd]; decide)
+    have hx' : x = [some 1] := by
+      have := List.mem_of_getElem? hx
+      exact List.eq_of_mem_replicate this
+    subst hx'
+    simp only [hd, List.getElem_cons_zero] at hrow
+    have hlen := congrArg List.length hrow
+    rw [C05_block_width] at hlen
+    simp only [List.length_cons, List.length_nil] at hlen
+    have hG : G = 2 := by omega
+    subst hG
+    have : g = 0 ∨ g = 1 := by omega
+    rcases this with rfl | rfl <;> exact absurd hrow (by decide +kernel)
+
+example : holdsOf (trainGroup exEnv exTable exSum) (fun o =>
+    !decide (IndicatorCoded o.st) && o.st.groups == ["mean", "a"]) = true := by decide +kernel
 
 end FormulaeModel.C05
